@@ -66,6 +66,8 @@ def generate(run_seed, tier):
         left -= len(frames)
         windows.append({"n": wl, "nseed": rn.getrandbits(31), "frames": frames})
     noise = r4a.finish_noise(windows, shape, snr)
+    if rn.random() < 0.3:
+        r4a.decreasing_levels(rn, windows, shape, noise)
     return {"rig": NAME, "prop": PROP, "noise": noise, "windows": windows, "read_size": read_size, "buffer_size": buffer_size,
             "pipe_cap": rs.choice([1, 2, 64]), "sink_stalls": [[rs.randrange(0, 5000), rs.choice([100, 5000])] for _ in range(rs.choice([0, 0, 1]))],
             "phase_seed": rn.getrandbits(31), "tape": {str(i): 1 for i in range(400) if rs.random() < 0.2}}
